@@ -219,6 +219,18 @@ def module_work(name, mod, tier, rng, viols, cells, counters, samples, probe, ca
             best = sorted(tally.items(), key=lambda kv: (-kv[1], {'del': 0, 'head': 1, 'zero': 2, 'whole': 3}[kv[0][0]], -kv[0][2]))[0]
             rule, hits = best
             nvs = len(vs[:40])
+            if nvs >= 3 and hits >= 3 and 0.5 * nvs <= hits < 0.9 * nvs:
+                # not enough agreement to call this the layout, but enough to ask one narrow question: does the
+                # exposed generator fail outright on the rest of a valid number for which validate() consults it?
+                for v in vs:
+                    o = C.outcome(g, arg_for(rule, v))
+                    if o[0] == 'exc':
+                        del calls[:]
+                        C.outcome(mod.validate, v)
+                        if gname.split('[')[0] in {tag[1] for (tag, _a, _r) in calls if tag[0] == name}:
+                            add(viols, 'C05|%s|%s|generator-raises-on-valid-number' % (name, gname.split('[')[0]),
+                                '%s accepts %r but %s(%r) raises %s (%s)' % (name, v, gname, arg_for(rule, v), o[1], o[3]),
+                                {'module': name, 'number': v, 'generator': gname, 'rule': list(rule), 'kind': 'm1'})
             if nvs < 3 or hits < 0.9 * nvs:
                 counters['unmapped_generator_classes'] += 1
                 continue
